@@ -5,10 +5,13 @@
  "enforce": ["libcperciva_getopt"],
  "expect_loops": ["searchopt"],
  "annotate": ["util/getopt.c"],
+ "tier": "thorough",
  "defines": ["VERIF_HALLOC", "GO_NOPTS_MAX=4", "GO_STRMAX=6", "GO_ARGC_MAX=4", "VERIF_STRMAX=8", "GSPEC_NAMEMAX=8"],
+ "thorough_timeout": 1800,
  "models": ["models/libc_string.c", "models/libc_misc.c", "models/getopt_stdio.c"],
  "timeout": 600,
  "assumptions": ["option table object <= 4 slots, argv object of exactly argc <= 4 pointers (no argv[argc] sentinel), every string <= 6 characters of arbitrary content in a heap block of exactly strlen + 1 bytes: any read past a NUL, before a string, or of argv[argc] fails a pointer check",
+                 "thorough tier only (about 8 minutes): a cross-check of the composition go_step (searchopt replaced by its contract) + go_searchopt, which carry the same obligations in the quick tier",
                  "nothing replaced: getopt() with searchopt() inlined (its loop closed by the loop contract) and strncmp from models/libc_string.c (reads through ordinary dereferences)",
                  "scan state arbitrary within the module invariant (any optind >= 0, pack cursor anywhere inside argv[optind] after its first character)"]
 }
@@ -37,4 +40,5 @@ h_step(void)
 	    __CPROVER_POINTER_OFFSET(optarg) <= a_l[s_optind]) || (s_optind + 1 < a_c && optarg == a_v[s_optind + 1]),
 	    "getopt: optarg is NULL, points into the current word, or is the next word");
 	GO_STEP_COVER_MIN();
+	VCOVER(r != NULL && optarg != NULL && g_go_F == 0 && t_n == 1);	/* (the marker list proper is GO_STEP_COVER_MIN in go_state.h) */
 }
